@@ -526,19 +526,42 @@ func (st *State) vp(name string, a []Value) Value {
 		}
 		return st.boolFrom(st.TS.Eq(v.T, st.TS.BV(1, 1)))
 	case "Choice":
-		// a small integer the engine forks on
+		// a small integer the engine forks on. The variable is fresh and only
+		// constrained to [0,n), so every alternative is feasible: no queries.
 		n := int(a[1].(Int).SVal())
 		v := st.NewVar(str(0), 8, false)
 		if v.T == nil {
 			return mkInt(64, true, v.C)
 		}
-		st.assumeBool(st.boolFrom(st.TS.Cmp(sym.OpULt, v.T, st.TS.BV(8, uint64(n)))))
-		for k := 0; k < n-1; k++ {
-			if st.decide(st.TS.Eq(v.T, st.TS.BV(8, uint64(k)))) {
-				return mkInt(64, true, uint64(k))
+		if st.choiceIdx < len(st.ForcedChoices) {
+			k := st.ForcedChoices[st.choiceIdx]
+			st.choiceIdx++
+			if k >= n {
+				st.Dead = true
+				panic(pathEnd{"forced choice out of range"})
+			}
+			st.assume(st.TS.Eq(v.T, st.TS.BV(8, uint64(k))))
+			return mkInt(64, true, uint64(k))
+		}
+		st.choiceIdx++
+		if st.journalOn > 0 {
+			panic(mergeAbort{"choice inside merge side"})
+		}
+		pos := len(st.decisions)
+		k := 0
+		if pos < len(st.prefix) {
+			k = int(st.prefix[pos].Val)
+		} else {
+			for alt := 1; alt < n; alt++ {
+				st.Pending = append(st.Pending, append(append([]Dec(nil), st.decisions...), Dec{Take: true, HasVal: true, Val: uint64(alt)}))
+			}
+			if n > 1 {
+				st.Forks++
 			}
 		}
-		return mkInt(64, true, uint64(n-1))
+		st.decisions = append(st.decisions, Dec{Take: true, HasVal: true, Val: uint64(k)})
+		st.assume(st.TS.Eq(v.T, st.TS.BV(8, uint64(k))))
+		return mkInt(64, true, uint64(k))
 	case "Assume":
 		st.assumeBool(a[0].(Bool))
 		return nil
